@@ -39,8 +39,9 @@ def run(tier, replay=None):
 
     def xz_all():
         scns, res, meta, runs = contlib.family_xz(ctx, j, quick, random.Random(ctx.seed), pool)
-        contlib.validate_xz_runs(ctx, j, runs, pool)
-        return scns
+        mscns, mres, mruns = contlib.family_xz_many(ctx, j, quick, random.Random(ctx.seed + 7), pool)
+        contlib.validate_xz_runs(ctx, j, runs + mruns, pool)
+        return scns + mscns
 
     def lz_all():
         lscns, lres, lruns = contlib.family_lzip(ctx, j, quick, random.Random(ctx.seed + 1), pool)
